@@ -15,6 +15,7 @@ func init() {
 		},
 		NotDecided: []string{"float rounding of fractional seconds beyond 'rounded, not truncated'", "model.ParseDuration semantics"},
 		Rules: func(r *Run) {
+			ruleDefaultOnlyWhenAbsent(r)
 			ruleTimeParams(r)
 		},
 	})
